@@ -81,11 +81,15 @@ def body(run):
         o = r.get("obs") or {}
         if r.get("status") == "ok" and isinstance(o, dict):
             recs += o.get("sym", []) + o.get("asym", []) + o.get("recs", [])
+    if ll.corrupting() and recs:
+        recs[len(recs) // 2] = dict(recs[len(recs) // 2], pad=recs[len(recs) // 2]["pad"] + 1)
+        run.log("VERIF_CORRUPT: padding of one observed layout record changed; TLC must reject it")
     nonmin = [e for e in recs if e["ev"] == "asym" and e["blocks"] > 1 and e["pb"] < e["rk"] - pols[e["pol"]]["encPad"]]
     tr = ll.validate_layout_records(run, recs, "trace: %d observed chunk layout records validated against ChunkLayout" % len(recs))
     if tr is None:
-        raise vf.Inconclusive("no layout records observed")
-    if tr.ok:
+        if not run.violations:
+            raise vf.Inconclusive("no layout records observed")
+    elif tr.ok:
         run.cov["traces_validated_against_impl"] += len(recs)
     elif tr.violated == "InvRec":
         m = re.findall(r"\bl = (\d+)", tr.out)
